@@ -707,7 +707,40 @@ def observations() -> dict:
     return obs
 
 
-CHECKERS = {"roundtrip": check_roundtrip, "weights": check_weights, "dense_weights": check_dense_weights, "reject": check_reject}
+def check_weights_to_json(case, col: Collector) -> bool:
+    """weights_to_json(PatternedTensor) must be the nested list of the dense tensor it denotes, whatever the
+    sparsity pattern (size-1 axes, non-zero and infinite defaults included), and json.dumps must accept it."""
+    from vf.bounded import gen_pt as G
+    from fggs.factors import weights_to_json
+    r = case["recipe"]
+    want = G.dense_oracle(r)
+    try:
+        got = weights_to_json(G.build_pt(r))
+        json.dumps(got)
+        t = torch.tensor(got, dtype=want.dtype) if want.numel() else torch.zeros(want.size(), dtype=want.dtype)
+        ok = tuple(t.size()) == tuple(want.size()) and G.same(t, want)
+        detail = "" if ok else f"observed {got} expected {want.tolist()}"
+    except Exception as e:
+        ok, detail = False, f"{type(e).__name__}: {e}"
+    if not ok:
+        col.add("weights_to_json.denotes_dense", "weights_to_json:patterned", f"weights_to_json on {G.canonical(r)[:160]}", case, detail)
+    return ok
+
+
+def weights_to_json_cases(ctx):
+    from vf.bounded import gen_pt as G
+    rng = ctx.rng("w2j")
+    out = []
+    for shape in G.all_shapes(numel_max=6 if ctx.thorough else 4, ndim_max=3):
+        if 0 in shape or len(shape) == 0: continue
+        for k, p in enumerate(G.patterns_for_shape(tuple(shape), ctx.tier)):
+            if any(n == 0 for n in p["pool"]): continue
+            for d in ((0.0, 0.5, "-inf", "inf") if ctx.thorough else ((0.0, 0.5, "-inf")[k % 3], 0.5)):
+                out.append({"kind": "weights_to_json", "recipe": G.fill_data(p, rng, special=False, dtype="float64", default=d)})
+    return out
+
+
+CHECKERS = {"weights_to_json": check_weights_to_json, "roundtrip": check_roundtrip, "weights": check_weights, "dense_weights": check_dense_weights, "reject": check_reject}
 
 
 def run_bounded(ctx: Ctx) -> Report:
@@ -743,6 +776,15 @@ def run_bounded(ctx: Ctx) -> Report:
             cases=len(wc) + len(dc), distinct_nontrivial=len({json.dumps(c, sort_keys=True) for c in wc if c["spec"].get("vaxes") not in (None, [])}),
             rule="enumeration of axis-expression lists (each physical axis mentioned at least once, at most one extra mention); non-trivial = vaxes present and non-empty",
             samples=[wc[0], wc[len(wc) // 2], wc[-1]], exhaustive=True))
+        w2 = weights_to_json_cases(ctx)
+        for c in w2:
+            check_weights_to_json(c, col)
+        rep.bounded.append(Bounded(
+            function="weights_to_json (patterned weights of any sparsity pattern denote their dense tensor)",
+            bound="typed patterns of gen_pt over every shape with numel <= 4 (thorough 6), ndim <= 3, incl. size-1 axes; defaults {0, 0.5, -inf(, inf)}",
+            cases=len(w2), distinct_nontrivial=len({json.dumps(c, sort_keys=True) for c in w2}),
+            rule="enumeration of gen_pt.patterns_for_shape, seeded finite data; every case is a distinct recipe",
+            samples=[w2[0], w2[-1]], exhaustive=False))
         jc = reject_cases()
         for c in jc:
             check_reject(c, col)
